@@ -228,6 +228,22 @@ def e_con(x):
 _counter = itertools.count()
 
 
+def load_src(src, tag=None):
+  """Register generated source in linecache + sys.modules and exec it; returns the module."""
+  import linecache
+  import sys
+  import types
+  tag = tag if tag is not None else f"g{next(_counter)}"
+  modname = f"vt_gen_{tag}"
+  fname = f"<vtgen:{tag}>"
+  linecache.cache[fname] = (len(src), None, src.splitlines(True), fname)
+  mod = types.ModuleType(modname)
+  mod.__file__ = fname
+  sys.modules[modname] = mod
+  exec(compile(src, fname, "exec"), mod.__dict__)
+  return mod
+
+
 def load(top, tag=None):
   """Emit, register in linecache + sys.modules, exec; return the top class."""
   import linecache
